@@ -13,7 +13,11 @@ variant of the case changes ONLY the presentation:
                                                                 (cp_als, hosvd, tucker_als)
 
 and must give the same expanded model (within DESIGN 4.3), the same reported fit / objective and the same iteration
-counts.  Admissibility is decided on the reference side only (numpy ALS / ST-HOSVD / HOOI below).
+counts.  Admissibility is decided on the reference side (numpy ALS / ST-HOSVD / HOOI below) for cp_als, hosvd and
+tucker_als.  CP-APR has no closed-form reference trajectory: a dense-vs-sparse pair is asserted where both runs are
+stable under a 1e-12 perturbation of the start (conditioning probe on the real implementation, see `_apr_sensitive`);
+the printing and same-seed relations use identical arithmetic and are asserted unconditionally.  A pair in which both
+runs abort with the same exception (PQN-R: 'L-BFGS first iterate is bad', frequent on small inputs) is consistent.
 """
 
 import contextlib
@@ -61,18 +65,27 @@ ASSUMPTIONS = [
     "GCP/L-BFGS-B takes part only in relations with identical arithmetic",
 ]
 BOUNDS = {
-    "quick": "shapes (3,4),(2,3,4),(3,3,3); cp_als: 4 members x rank 1..3 x 2 guesses x maxiters {1,2,3} x 3 dimorders x "
-             "optdims {all, drop-first} x stoptol {0,1e-2}, + random seeds {0,1,2} and nvecs starts; cp_apr: 4 count members "
-             "x {mu,pdnr,pqnr} x rank 1..2 x 3 guesses (positive; zero row; zero entries + weights) x maxiters {1,2,3} x "
-             "base options {default, maxinneriters 3, inexact False / precompinds False}; printitn {0,1,2,3} x printinneritn "
-             "{0,1}; hosvd: 5 members x tol {1e-8,.1,.3,.6} + rank vectors x sequential T/F x 3 dimorders + default, verbosity "
-             "{1,3,10}; tucker_als: 4 members x ranks (scalars 1..2, two vectors) x given list / random seeds / nvecs x "
-             "maxiters {1,2,3} x stoptol {0,1e-2} x 3 dimorders; gcp_opt L-BFGS-B: Gaussian / Poisson x rank 1..2 x maxiter "
-             "{1,2,3} x printitn {1,2,3} x iprint {0,1}; scale in {4, 1/4}; ALL N! mode permutations",
-    "thorough": "adds shapes (4,3,2),(2,2,2,3),(2,3,2,2) (all 24 permutations; cp_apr: (2,2,2,3) only), maxiters 4, more members / value seeds, second "
-                "and third guesses everywhere, all N! dimorders as base order for N<=3, sparse holder combined with every "
-                "printing setting, scaling and relabelling, stoptol 1e-4, more GCP objectives (Poisson-log, Rayleigh, Gamma) "
-                "and rank 3",
+    "quick": "shapes (3,4),(2,3,4),(3,3,3), maxiters {1,2,3}, seeds {0,1,2}, scale {4,1/4}, ALL N! mode permutations.  "
+             "cp_als: 4 members (generic, rank-2+noise, exact rank 2, counts with an empty slice) x rank 1..3 x explicit "
+             "integer guess x 3 dimorders x optdims {all, drop-first} x stoptol {0,1e-2}; + random starts (3 seeds) and "
+             "nvecs starts; variants: sptensor (printitn 0,1), printitn {1,2,3}, scale (dense, sparse), relabel.  cp_apr: 4 "
+             "count members (sparse counts, empty first slice, rank-2 counts, all-positive) x {mu,pdnr,pqnr} x rank 1..2 x 5 "
+             "explicit guesses (positive integers; zero row; zero entries + weights; positive non-integers; tiny rows on the "
+             "empty slices) x option sets {default, maxinneriters 3, inexact False (pdnr)} + random starts; variants: "
+             "sptensor (silent, printing, precompinds False), printitn {0,1,2,3} x printinneritn {0,1}, same seed.  hosvd: 5 "
+             "members x (tol {1e-8,.1,.3,.6} + 2 rank vectors) x sequential T/F x (default + 3 dimorders); variants: "
+             "verbosity {1,3,10}, scale, relabel.  tucker_als: 4 members (generic, rank-2+noise, exact multilinear rank 2, "
+             "counts with an empty slice) x ranks {1, 2, two vectors} x explicit start list x (default + 2 dimorders) x "
+             "stoptol {0,1e-2}; + random starts (3 seeds, default and reversed order) and nvecs; variants: printitn {1,2,3}, "
+             "scale, relabel, same seed.  gcp_opt/L-BFGS-B: Gaussian (2 members), Poisson (2 members) x rank 1..2 x maxiter "
+             "{1,2,3} x explicit guess + 3 seeds; variants: printitn {1,2,3}, iprint {0,1}, same seed.  "
+             "5932 cases, 45224 compared pairs",
+    "thorough": "adds shapes (4,3,2),(2,2,2,3),(2,3,2,2) (all 24 permutations on the default / identity / reversed bases, a "
+                "generating set of 3 elsewhere; cp_apr: (2,2,2,3) only), maxiters 4, more members / value seeds, further "
+                "guesses, all N! dimorders as base order for N<=3, optdims {single mode}, stoptol 1e-4, sparse holder "
+                "combined with every printing setting, scaling and relabelling, hosvd tol {.05,.9} + 2 more rank vectors and "
+                "verbosity {-1,6}, cp_apr rank 3 and stoptol 1e-2, more GCP objectives (Poisson-log, Rayleigh, Gamma), rank 3, "
+                "iprint 99.  41100 cases, 453922 compared pairs",
 }
 CHUNK = 6
 
